@@ -584,26 +584,33 @@ Definition parse_query (fuel : nat) (s : str) : outcome (list pdef) :=
     bindo (check_items items None []) (fun _ => Ok items))))
   end.
 
-(* parse_schema, modelled only as far as the pest layer: the names of the
-   definitions, or a syntax error *)
-Definition sdl_summary (t : tree) : list (N * str) :=
+(* parse_schema, modelled only as far as the pest layer: kind, name and
+   description (parse_string of the leading `string?`) of every definition,
+   or a syntax error *)
+Definition sdl_description (t : tree) : option str :=
+  match filter (fun x => t_rule x =? R_string) (t_kids t) with
+  | d :: _ => match parse_string d with Ok s => Some s | _ => None end
+  | [] => None
+  end.
+
+Definition sdl_summary (t : tree) : list (N * str * option str) :=
   flat_map (fun d =>
     flat_map (fun k =>
       if t_rule k =? R_type_definition then
         flat_map (fun ty =>
           match filter (fun x => t_rule x =? R_name) (t_kids ty) with
-          | n :: _ => [(t_rule ty, t_text n)]
-          | [] => [(t_rule ty, [])]
+          | n :: _ => [(t_rule ty, t_text n, sdl_description ty)]
+          | [] => [(t_rule ty, [], sdl_description ty)]
           end) (t_kids k)
       else if t_rule k =? R_directive_definition then
         match filter (fun x => t_rule x =? R_name) (t_kids k) with
-        | n :: _ => [(t_rule k, t_text n)]
-        | [] => [(t_rule k, [])]
+        | n :: _ => [(t_rule k, t_text n, sdl_description k)]
+        | [] => [(t_rule k, [], sdl_description k)]
         end
-      else [(t_rule k, [])]) (t_kids d))
+      else [(t_rule k, [], None)]) (t_kids d))
     (filter (fun t => negb (t_rule t =? R_EOI)) (t_kids t)).
 
-Definition parse_schema_peg (fuel : nat) (s : str) : outcome (list (N * str)) :=
+Definition parse_schema_peg (fuel : nat) (s : str) : outcome (list (N * str * option str)) :=
   match parse_rule grammar fuel R_service_document s with
   | POof => OutOfFuel
   | PFail => Err E_SYNTAX
